@@ -160,6 +160,14 @@ pub fn run(ctx: &Ctx) -> Report {
         report.fail("property", "piece-length-table", json!({"cmd": "torrent piece-length", "content": c}), format!("printed table says {c} -> {p}, spec {}", spec(*c)));
       }
     }
+    // the whole rows, not only the first two columns (piece count and size of the piece list are part of the table)
+    let squeeze = |l: &String| l.split_whitespace().collect::<Vec<_>>().join(" ");
+    let bin_lines: Vec<String> = bin_rows.iter().map(|r| squeeze(&r.2)).collect();
+    let book_lines: Vec<String> = book_rows.iter().map(|r| squeeze(&r.2)).collect();
+    if bin_pairs == book_pairs && bin_lines != book_lines {
+      let i = bin_lines.iter().zip(book_lines.iter()).position(|(a, b)| a != b).unwrap_or(0);
+      report.fail("property", "piece-length-table", json!({"cmd": "torrent piece-length", "vs": "book", "row": i}), format!("row {i} of the printed table is `{}`, the published table has `{}`", bin_lines.get(i).cloned().unwrap_or_default(), book_lines.get(i).cloned().unwrap_or_default()));
+    }
     if bin_pairs != book_pairs {
       report.fail("property", "piece-length-table", json!({"cmd": "torrent piece-length", "vs": "book"}), "printed table differs from the published table in the book".into());
     }
